@@ -165,6 +165,12 @@ theorem guard_refines {c : Cat} {ss : Session} (hc : ss.coherent c = true) (st :
       | q2 _ _ => simp [Stmt.rawFails] at hraw
       | q3 _ _ _ => simp [Stmt.rawFails] at hraw
     all_goals (simp only [Stmt.needs] at hg; simp [sexec, resolve_guard hc a e hg])
+  | tabI op r =>
+    -- the guard asks for database and schema; outside the region the reference itself needs what is missing
+    rcases coherent_cases hc with rfl | ⟨d, rfl, _⟩ | ⟨d, sc, rfl, _⟩ <;> cases r <;>
+      simp [Stmt.needs, Session.guard, Session.abs, sexec, Ctx.resolveT, localRegion, TRef.needDb, TRef.needSchema] at * <;>
+      exact hg.symm ▸ rfl
+  | writePandas v r => simp [Stmt.needs, Session.guard] at hg
   | sch op r =>
     cases op <;> cases r <;> simp [Stmt.needs, Session.guard, SRef.needDb] at hg <;>
       rcases coherent_cases hc with rfl | ⟨d, rfl, _⟩ | ⟨d, sc, rfl, _⟩ <;>
@@ -248,6 +254,38 @@ theorem refines_two {c : Cat} {ss : Session} (hc : ss.coherent c = true) (op : C
   have h2 := resolve_agree hc b false hgb (Or.inr hfb)
   simp only [LocalRefines, exec, sexec, h1, h2, clear_none]
   exact ⟨trivial, trivial, trivial, coherent_keeps (applyTwo_keeps c op _ _ none) hc (by simp), applyTwo_keeps _ _ _ _ _⟩
+
+theorem refines_tabI {c : Cat} {ss : Session} (hc : ss.coherent c = true) (op : TOp) (r : TRef)
+    (hreg : localRegion c ss (.tabI op r) = none) (hg : ss.guard (Stmt.tabI op r).needs = none) :
+    LocalRefines c ss (.tabI op r) := by
+  have hfull : ss.guard (true, true) = none := hg
+  have hgr := guard_all_of_full hfull (r.needDb, r.needSchema)
+  have hreg' : localRegion c ss (.tab op r) = none := by
+    simpa [localRegion, hfull] using hreg
+  have := refines_tab hc op r hreg' hgr
+  simpa [LocalRefines, exec, sexec] using this
+
+theorem refines_writePandas {c : Cat} {ss : Session} (hc : ss.coherent c = true) (v : Nat) (r : TRef)
+    (hreg : localRegion c ss (.writePandas v r) = none) : LocalRefines c ss (.writePandas v r) := by
+  simp only [localRegion] at hreg
+  have hgr : ss.guard (r.needDb, r.needSchema) = none := by
+    cases h : ss.guard (r.needDb, r.needSchema) with
+    | none => rfl
+    | some e => simp [h] at hreg
+  have hok : (c.applyT (.insert v) (duckResolve c ss.path false r).1 (duckResolve c ss.path false r).2.1
+      (duckResolve c ss.path false r).2.2).1 = .ok := by
+    by_cases h : (c.applyT (.insert v) (duckResolve c ss.path false r).1 (duckResolve c ss.path false r).2.1
+      (duckResolve c ss.path false r).2.2).1 = .ok
+    · exact h
+    · simp [hgr, h] at hreg
+  have hfb : fallsBack c ss.path r = false := by
+    cases h : fallsBack c ss.path r
+    · rfl
+    · simp [hgr, hok, h] at hreg
+  have ha := resolve_agree hc r false hgr (Or.inr hfb)
+  simp only [LocalRefines, exec, sexec, ha, hok, if_true, clear_none]
+  refine ⟨trivial, trivial, trivial, ?_, applyT_keeps _ _ _ _ _ _⟩
+  exact coherent_keeps (applyT_keeps _ _ _ _ _ none) hc (by simp)
 
 theorem refines_simple {c : Cat} {ss : Session} (hc : ss.coherent c = true) (st : Stmt)
     (hst : (∃ d i, st = .createDb d i) ∨ (∃ d, st = .useDb d) ∨ st = .selectCtx)
@@ -353,6 +391,8 @@ theorem exec_refines {c : Cat} {ss : Session} (hc : ss.coherent c = true) (st : 
   | tab op r => exact refines_tab hc op r hreg hg
   | join r1 r2 => exact refines_join hc r1 r2 hreg hg
   | two op a b => exact refines_two hc op a b hreg hg
+  | tabI op r => exact refines_tabI hc op r hreg hg
+  | writePandas v r => exact refines_writePandas hc v r hreg
   | sch op r =>
     cases op
     · exact refines_sch_create hc _ r hg
@@ -378,6 +418,8 @@ theorem sexec_dropped {c : Cat} {x : Ctx} {st : Stmt} {d s : Name} (h : (sexec c
                   all_goals simp at h
   | two op r1 r2 => simp only [sexec] at h; repeat' split at h
                     all_goals simp at h
+  | tabI op r => simp only [sexec] at h; split at h <;> simp at h
+  | writePandas v r => simp only [sexec] at h; split at h <;> simp at h
   | createDb d i => simp [sexec] at h
   | dropDb d => simp only [sexec] at h; split at h <;> simp at h
   | useDb d => simp only [sexec] at h; split at h <;> simp at h
